@@ -203,7 +203,7 @@ V("rob-write-table-default", ["C19"], R, "fire",
 V("rob-entity-type-missing", ["C19", "C02"], R, "fire",
   (SYM, "        elif entity_type == \"ridge\":\n            return self.entity_local_index[0]\n", ""))
 V("rob-entity-table-wrong", ["C19", "C02"], R, "fire", (REP, "        \"interior_facet\": \"facet\",", "        \"interior_facet\": \"cell\","))
-V("rob-stale-table", ["C19"], R, "fire",
+V("rob-stale-table", ["C19", "C03"], R + ["GEN-TABLES"], "fire",
   (ET, "                    else:\n                        raise RuntimeError(\n                            f\"Facet quadrature permutations are not supported for cell {cell_type}.\"\n                        )\n", ""))
 V("rob-stale-new-branch", ["C19"], R, "fire",
   (ET, "        if is_new_table:\n            _existing_tables[name] = tbl\n", "        if is_new_table:\n            _existing_tables[name] = tbl\n            first_name = name\n        if avg:\n            name = first_name\n"))
@@ -266,8 +266,8 @@ V("desc-ids-benign-guard-form", ["C06", "C19"], ["SUBDOMAIN-IDS", "EVERYWHERE-ID
 V("desc-names-not-repeated", ["C06"], ["EVERYWHERE-ID"], "fire", (REP, "        for _ in range(len(subdomain_ids)):\n            iname = integral_names[(form_id, itg_index)]", "        for _ in range(1):\n            iname = integral_names[(form_id, itg_index)]"))
 V("desc-template-missing-field", ["C06", "C20"], DS, "fire", ("ffcx/codegeneration/C/form_template.py", "  .rank = {rank},\n", ""))
 V("desc-numba-missing-attr", ["C06", "C18"], DS, "fire", ("ffcx/codegeneration/numba/form_template.py", "  num_constants = {num_constants}\n", ""))
-V("desc-slot-wrong-source", ["C06"], DS, "fire", (CFORM, "    d[\"rank\"] = ir.rank\n", "    d[\"rank\"] = ir.num_coefficients\n"))
-V("desc-numba-slot-differs", ["C18"], DS, "fire", (NFORM, "    d[\"num_coefficients\"] = ir.num_coefficients", "    d[\"num_coefficients\"] = ir.num_constants"))
+V("desc-slot-wrong-source", ["C06"], DS + ["GEN-FORM"], "fire", (CFORM, "    d[\"rank\"] = ir.rank\n", "    d[\"rank\"] = ir.num_coefficients\n"))
+V("desc-numba-slot-differs", ["C18"], DS + ["GEN-FORM"], "fire", (NFORM, "    d[\"num_coefficients\"] = ir.num_coefficients", "    d[\"num_coefficients\"] = ir.num_constants"))
 V("desc-enum-renumbered", ["C06"], DS, "fire", (UFCX, "    exterior_facet = 1,\n    interior_facet = 2,", "    interior_facet = 1,\n    exterior_facet = 2,"))
 V("desc-constants-from-reduced", ["C06", "C05"], DS + ["PREFIX-OFFSETS"], "fire",
   (REP, "    ir[\"num_constants\"] = len(form_data.original_form.constants())", "    ir[\"num_constants\"] = len(form_data.preprocessed_form.constants())"))
@@ -349,7 +349,7 @@ V("be-complex-uses-real", ["C09"], B, "fire", (CF, "        \"exp\": \"cexp\",",
 V("be-float32-missing-key", ["C09"], B, "benign", (CF, "        \"erf\": \"erff\",\n", ""))
 # a missing complex key falls back to the real function: the imaginary part is discarded by the implicit conversion
 V("be-complex64-missing-key", ["C09"], B, "fire", (CF, "        \"sqrt\": \"csqrtf\",\n", ""))
-V("be-geom-type-scalar", ["C09"], B, "fire",
+V("be-geom-type-scalar", ["C09"], B + ["GEN-INTEGRAL"], "fire",
   ("ffcx/codegeneration/C/integral.py", "        geom_type=dtype_to_c_type(dtype_to_scalar_dtype(options[\"scalar_type\"])),  # type: ignore", "        geom_type=dtype_to_c_type(options[\"scalar_type\"]),  # type: ignore"))
 V("be-complex-h-inverted", ["C09"], B, "fire", ("ffcx/codegeneration/C/file.py", "    if np.issubdtype(options[\"scalar_type\"], np.complexfloating):", "    if not np.issubdtype(options[\"scalar_type\"], np.floating):\n        pass\n    if np.issubdtype(options[\"scalar_type\"], np.floating):"))
 V("be-coordinate-dofs-scalar", ["C09"], B, "fire", (SYM, "        self.coordinate_dofs = L.Symbol(\"coordinate_dofs\", dtype=L.DataType.REAL)", "        self.coordinate_dofs = L.Symbol(\"coordinate_dofs\", dtype=L.DataType.SCALAR)"))
